@@ -5,7 +5,7 @@ flatten, copy, pickling, encode_7bit) and the property oracle on the
 implementation.  The correspondence on the well-formed class is also what tests
 the theorems' hypothesis about Python's `email` package (codec_ok): it is
 tested here, not proved."""
-import re, copy, pickle, itertools, base64, quopri, traceback
+import re, copy, pickle, itertools, base64, quopri, traceback, collections
 from io import BytesIO
 from email.parser import BytesParser
 from email.generator import BytesGenerator
@@ -70,6 +70,59 @@ def email_codec(header_data):
 
 def exc_name(ex):
     return type(ex).__name__
+
+
+# What _msg_generator's first attempt did in THIS call, observed from outside (module-namespace patch, no hook in /repo):
+# every BytesGenerator the envelope module creates logs (refold_source of its policy, exception type or None).
+class _ObservedGenerator(BytesGenerator):
+    log = []
+
+    def flatten(self, msg, *a, **k):
+        try:
+            r = BytesGenerator.flatten(self, msg, *a, **k)
+        except BaseException as ex:
+            _ObservedGenerator.log.append((getattr(self.policy, 'refold_source', None), type(ex).__name__))
+            raise
+        _ObservedGenerator.log.append((getattr(self.policy, 'refold_source', None), None))
+        return r
+
+
+if getattr(envmod, 'BytesGenerator', None) is BytesGenerator:
+    envmod.BytesGenerator = _ObservedGenerator
+LAST = {'first_attempt_raised': None}
+
+
+def observed_flatten(e):
+    """e.flatten() and whether the first generator attempt of that very call raised (None: not observable)"""
+    del _ObservedGenerator.log[:]
+    flat = e.flatten()
+    log = list(_ObservedGenerator.log)
+    return flat, ((log[0][1] is not None) if log else None)
+
+
+def deep_call(f, depth):
+    """f() from inside `depth` nested Python calls: email's refold raises RecursionError relative to the CURRENT stack,
+    so the raise / no-raise boundary of the first attempt is exercised on purpose"""
+    if depth <= 0:
+        return f()
+    return deep_call(f, depth - 1)
+
+
+NEST_RE = re.compile(br'[(<"\[]')
+
+
+def recursion_prone(data):
+    """a header line with 50 or more of one of ( < " [ : whether email's refold of it ends in RecursionError depends on
+    the stack depth of the call and on which of email's helper regexes are already compiled, i.e. it is not a function
+    of the input.  The statement promises only never-raise (and the body) for such over-long lines."""
+    m = re.search(br'\r?\n\s*?\n', data)
+    head = data[:m.end(0)] if m else data
+    for line in head.split(b'\n'):
+        if len(line) > 78:
+            c = collections.Counter(NEST_RE.findall(line))
+            if c and max(c.values()) >= 50:
+                return True
+    return False
 
 
 # ------------------------------------------------------------------ generators
@@ -216,15 +269,24 @@ def run_boundary(ctx, maxlen, alphabet=b'\r\n a\t'):
     return len(cases)
 
 
-def check_no_raise(ctx, data, kind, case=None, light=False):
+def check_no_raise(ctx, data, kind, case=None, light=False, deep=False):
     """weaker claim for arbitrary bytes: parse / flatten / copy / pickle never raise.  Returns (env, flat) or None.
-    case: what to record instead of the data itself (big inputs); light: one pickle protocol, one copy."""
+    case: what to record instead of the data itself (big inputs); light: one pickle protocol, one copy;
+    deep: flatten also from inside 200 nested calls.  For recursion-prone inputs (see recursion_prone) the copies are
+    compared on the body only: which of the two generator attempts writes the headers may differ from call to call."""
     step = 'parse'
+    body_only = recursion_prone(data)
+    LAST['first_attempt_raised'] = None
     try:
         e = Envelope('sender@example.com', ['r1@example.com', 'r2@example.net'])
         e.parse(data)
         step = 'flatten'
-        flat = e.flatten()
+        flat, LAST['first_attempt_raised'] = observed_flatten(e)
+        if deep:
+            step = 'flatten (called from a stack 200 frames deep)'
+            dflat = deep_call(e.flatten, 200)
+            if dflat[1] != flat[1]:
+                ctx.fail('c20:body-changed', case or dict(kind=kind, data=data), 'flatten() from a deep stack gives body %r, from a shallow one %r' % (dflat[1][:200], flat[1][:200]))
         step = 'copy'
         c = e.copy()
         cf = c.flatten()
@@ -234,17 +296,17 @@ def check_no_raise(ctx, data, kind, case=None, light=False):
         for proto in ((pickle.HIGHEST_PROTOCOL,) if light else (pickle.HIGHEST_PROTOCOL, pickle.DEFAULT_PROTOCOL)):
             p = pickle.loads(pickle.dumps(e, proto))
             pf = p.flatten()
-            if pf != flat or p.sender != e.sender or p.recipients != e.recipients:
+            if (pf[1] != flat[1] if body_only else pf != flat) or p.sender != e.sender or p.recipients != e.recipients:
                 ctx.fail('c20:pickle-changes-envelope', dict(case or dict(kind=kind, data=data), protocol=proto),
                          'pickled envelope flattens to %r, original %r' % (pf[0][-200:] + pf[1][:200], flat[0][-200:] + flat[1][:200]))
-        if cf != flat:
+        if (cf[1] != flat[1] if body_only else cf != flat):
             ctx.fail('c20:copy-changes-envelope', case or dict(kind=kind, data=data),
                      'copy flattens to %r, original %r' % (cf[0][-200:] + cf[1][:200], flat[0][-200:] + flat[1][:200]))
         return e, flat
     except Exception as ex:
         key = 'c20:raises-on-arbitrary-bytes'
         # classification only: raised while email re-folds a header line that is (or, written as "Name: value", becomes) longer than 78 bytes
-        if step == 'flatten' and any(f.name in ('_fold', 'fold_binary') for f in traceback.extract_tb(ex.__traceback__)):
+        if step.startswith('flatten') and any(f.name in ('_fold', 'fold_binary') for f in traceback.extract_tb(ex.__traceback__)):
             key = 'c20:flatten-raises-refolding-long-header-line'
         ctx.fail(key, dict(case or dict(kind=kind, data=data), step=step),
                  '%s() raised %s: %s' % (step, exc_name(ex), str(ex)[:300]))
@@ -279,7 +341,11 @@ def run_arbitrary(ctx, datas, kind):
         merged = bool(jobs[i][2])
         ctx.evaluated((kind, datas[i]), nontrivial=(merged or b'\n' in datas[i]))
         ctx.count('arbitrary:%s:%s' % (kind, 'payload-merged' if merged else 'plain'))
-        if flats[i] != mo:
+        if recursion_prone(datas[i]):
+            ctx.count('arbitrary:%s:recursion-prone-compared-on-body-only' % kind)
+            if flats[i][1] != mo[1]:
+                ctx.mismatch('parse-with-email-as-codec', dict(kind=kind, data=datas[i]), flats[i][1], mo[1])
+        elif flats[i] != mo:
             ctx.mismatch('parse-with-email-as-codec', dict(kind=kind, data=datas[i]), flats[i], mo)
 
 
@@ -513,35 +579,56 @@ def run_fallback(ctx, n):
 
 
 def judge_long(ctx, cases, kind, light=False):
-    """cases: (fields, index of the long field, header block, blank, body, eol mode)"""
+    """cases: (fields, index of the long field, header block, blank, body, eol mode[, generator description]).
+    Recursion-prone inputs (recursion_prone): only what the statement promises for over-long lines is judged - parse /
+    flatten (from a shallow and from a deep stack) / copy / pickle never raise, body unchanged.  Other inputs: the path
+    (first attempt raised or not) is OBSERVED for the very flatten() call that is judged."""
     cases = [c if len(c) == 7 else c + (None,) for c in cases]
     datas = [H + blank + body for (fs, pos, H, blank, body, mode, gen) in cases]
-    folds = [email_folds(H + blank) for (fs, pos, H, blank, body, mode, gen) in cases]
+    prone = [recursion_prone(H) for (fs, pos, H, blank, body, mode, gen) in cases]
+    folds = [[[]] * len(fs) if pr else email_folds(H + blank) for (fs, pos, H, blank, body, mode, gen), pr in zip(cases, prone)]
     outs = ctx.model.batch('c20_parse_flatten_x', [[d, f] for d, f in zip(datas, folds)])
-    for (fs, pos, H, blank, body, mode, gen), data, fl, o in zip(cases, datas, folds, outs):
+    for (fs, pos, H, blank, body, mode, gen), data, fl, o, pr in zip(cases, datas, folds, outs, prone):
         raw = [split for split in split_fields(hnorm_py(fs))]
-        path = 'fallback' if any(not x for x in fl) else ('refolded' if [x[0] for x in fl] != raw else 'as-received')
         where = 'first' if pos == 0 else ('last' if pos == len(fs) - 1 else 'middle')
-        ctx.count('%s:%s:%s' % (kind, path, where))
-        case = dict(kind='long-line', stream=kind, data=data, header_block=H, blank=blank, body=body, long_field_index=pos, path=path)
+        case = dict(kind='long-line', stream=kind, data=data, header_block=H, blank=blank, body=body, long_field_index=pos)
         if gen is not None:       # keep replays small: big inputs are regenerated from their description
-            case = dict(kind='long-line', stream=kind, long_field_index=pos, path=path, body=body, gen=gen)
+            case = dict(kind='long-line', stream=kind, long_field_index=pos, body=body, gen=gen)
         ctx.evaluated(('x', data), nontrivial=True)
-        if path == 'fallback':
-            ctx.sample(dict(kind=kind, data=data[:300], long_field_index=pos, path=path), cap=5)
         mo = (B(o[1]), B(o[2])) if o[0] == 0 else ('model-tag', o[0])
-        r = check_no_raise(ctx, data, kind, case=case, light=light)
+        r = check_no_raise(ctx, data, kind, case=case, light=light, deep=(pr or kind == 'nesting'))
         if r is None:
             # the model (fallback taken for ANY exception of the first attempt) produced output, the implementation raised
+            ctx.count('%s:implementation-raised:%s' % (kind, where))
             ctx.mismatch('parse-flatten-long-line', case, 'raises', (mo[0][-200:], mo[1][:200]) if len(mo) == 2 and mo[0] != 'model-tag' else mo)
             continue
         e, flat = r
+        observed = LAST['first_attempt_raised']
+        if flat[1] != body:
+            ctx.fail('c20:body-changed', case, 'flatten() body %r, expected %r' % (flat[1][:300], body[:300]))
+        if pr:
+            # which attempt wrote the headers is not a function of the input here: headers are not judged, not compared
+            ctx.count('%s:recursion-prone(headers not judged):first-attempt-%s:%s' % (
+                kind, {True: 'raised', False: 'succeeded', None: 'unobserved'}[observed], where))
+            if len(mo) == 2 and mo[0] != 'model-tag' and flat[1] != mo[1]:
+                ctx.mismatch('parse-flatten-long-line', case, flat[1][:200], mo[1][:200])
+            continue
+        fold_path = 'fallback' if any(not x for x in fl) else ('refolded' if [x[0] for x in fl] != raw else 'as-received')
+        if observed is None:
+            path = fold_path                      # generator not observable: email's per-header answers decide
+        else:
+            path = 'fallback' if observed else fold_path
+            if observed != (fold_path == 'fallback'):
+                ctx.mismatch('first-attempt-outcome', case, 'first attempt raised' if observed else 'first attempt succeeded',
+                             'email folds every header' if fold_path != 'fallback' else 'email cannot fold header(s) %r' % [i for i, x in enumerate(fl) if not x])
+        case['path'] = path
+        ctx.count('%s:%s:%s' % (kind, path, where))
+        if path == 'fallback':
+            ctx.sample(dict(kind=kind, data=data[:300], long_field_index=pos, path=path), cap=5)
         if flat != mo or len(fl) != len(fs):
             ctx.mismatch('parse-flatten-long-line', case, flat, mo)
-        # ---- implementation-only oracle: same header field list (names and values, in order, same multiplicity), same body
+        # ---- implementation-only oracle: same header field list (names and values, in order, same multiplicity)
         problems = []
-        if flat[1] != body:
-            ctx.fail('c20:body-changed', case, 'flatten() body %r, expected %r' % (flat[1], body))
         if flat[0][-2:] != CRLF:
             problems.append('header data does not end with the blank line')
         got = split_fields(flat[0][:-2])
@@ -572,13 +659,16 @@ def judge_long(ctx, cases, kind, light=False):
             ctx.fail('c20:header-block-changed', case, '; '.join(problems[:4]) + '; flatten() header data = %r' % (flat[0],))
             continue
         if path == 'fallback':
+            # re-parse fixed point, judged only if that second flatten() call is observed to take the fallback path as well
             try:
                 e2 = Envelope()
                 e2.parse(flat[0] + flat[1])
-                flat2 = e2.flatten()
+                flat2, observed2 = observed_flatten(e2)
             except Exception as ex:
-                flat2 = ('raises', exc_name(ex))
-            if flat2 != flat:
+                flat2, observed2 = ('raises', exc_name(ex)), True
+            if observed2 is False:
+                ctx.count('%s:re-parse-took-the-refold-path(not judged)' % kind)
+            elif flat2 != flat:
                 ctx.fail('c20:not-a-fixed-point', case, 're-parsing flatten() output gives %r, first %r' % (flat2, flat))
 
 
